@@ -15,8 +15,10 @@ ASSUMPTIONS = [
     "after the repair of POO's start condition (fix: f16bd14) every rhomax in (0,1) starts; small rhomax are part of the workload",
     "grid membership: rho == rhomax^(2N/(2i+1)) for some N in {2,4,..,65536}, 0 <= i < N, to rel. 1e-12",
 ]
-FLOOR = {"poo_rounds_checked": {"quick": 200000, "thorough": 5000000}, "poo_scores_compared": {"quick": 500000, "thorough": 10000000},
-         "learners_created": {"quick": 1000, "thorough": 20000}, "recommendations_checked": {"quick": 400, "thorough": 8000}}
+FLOOR = {"poo_rounds_checked": {"quick": 120000, "thorough": 960000},
+         "poo_scores_compared": {"quick": 500000, "thorough": 4000000},
+         "learners_created": {"quick": 800, "thorough": 6400},
+         "recommendations_checked": {"quick": 400, "thorough": 3200}}
 WALL = {"quick": 1200, "thorough": 5 * 3600}
 
 
